@@ -269,7 +269,7 @@ func (m *Machine) visitInstr(fr *frame, instr ssa.Instruction) continuation {
 		m.chanSend(fr.get(instr.Chan), fr.get(instr.X))
 
 	case *ssa.Store:
-		addr := m.derefCheck(fr.get(instr.Addr).(*value))
+		addr := m.ptr(fr.get(instr.Addr))
 		if g, ok := instr.Addr.(*ssa.Global); ok && g.Pkg == m.target && !m.inInit && !strings.HasPrefix(g.Name(), "vf") {
 			m.globalWrites = append(m.globalWrites, g.Name()+" at "+m.pos())
 		}
@@ -328,7 +328,7 @@ func (m *Machine) visitInstr(fr *frame, instr ssa.Instruction) continuation {
 		fr.set(instr, fr.get(instr.Iter).(iter).next())
 
 	case *ssa.FieldAddr:
-		p := m.derefCheck(fr.get(instr.X).(*value))
+		p := m.ptr(fr.get(instr.X))
 		fr.set(instr, &(*p).(structure)[instr.Field])
 
 	case *ssa.Field:
